@@ -985,10 +985,12 @@ func main() {
 		smallqDrops := w.SmallQ > 0
 		rec.Lossy = st.Dropped > 0 && !smallqDrops
 		writeLogs(bw, id, clients, rec.Lossy)
+		bw.Flush()
 		if sw != nil {
 			b, _ := json.Marshal(rec)
 			sw.Write(b)
 			sw.WriteByte('\n')
+			sw.Flush()
 		}
 	}
 }
